@@ -1,0 +1,36 @@
+//go:build verif
+// +build verif
+
+package js_printer
+
+import "github.com/evanw/esbuild/internal/js_ast"
+
+// Thin wrappers (no logic) for the C01 property-key checks in /verif: run the
+// printer's own key / member-name decisions on a bare printer.
+
+func VerifCanPrintIdentifierUTF16(options Options, name []uint16) bool {
+	p := verifBarePrinter(options, nil, 0)
+	return p.canPrintIdentifierUTF16(name)
+}
+
+// printProperty of `<key>: 0` with a string key
+func VerifPrintStringKeyProperty(options Options, key []uint16, preferQuoted bool) []byte {
+	p := verifBarePrinter(options, nil, 0)
+	var flags js_ast.PropertyFlags
+	if preferQuoted {
+		flags |= js_ast.PropertyPreferQuotedKey
+	}
+	p.printProperty(js_ast.Property{
+		Key:        js_ast.Expr{Data: &js_ast.EString{Value: key}},
+		ValueOrNil: js_ast.Expr{Data: &js_ast.ENumber{Value: 0}},
+		Flags:      flags,
+	})
+	return p.js
+}
+
+// printExpr of `this.<name>` (EDot)
+func VerifPrintDotName(options Options, name string) []byte {
+	p := verifBarePrinter(options, nil, 0)
+	p.printExpr(js_ast.Expr{Data: &js_ast.EDot{Target: js_ast.Expr{Data: js_ast.EThisShared}, Name: name}}, js_ast.LLowest, 0)
+	return p.js
+}
